@@ -45,6 +45,7 @@ class World:
         self.obj: Dict[str, Any] = {}
         self.env_of: Dict[str, str] = {}
         self.block_cls: Dict[str, str] = {}   # state class placed by prepare() (site descriptor only)
+        self.ce_groups: List[set] = []        # sets of composite handles that were merged with each other
         for i, e in enumerate(spec.get("envs", [])):
             env = Envelope()
             name = f"e{i}"
@@ -86,7 +87,20 @@ class World:
             else:
                 args.append(self.ces[m])
         name = f"ce{len(self.ces)}"
+        # handles that this construction merges: those given, and those owning a given envelope
+        merged = {m for m in members if m in self.ces}
+        for m in members:
+            if m in self.envs:
+                for cname in self.ces:
+                    if any(e is self.envs[m] for e in self.ces[cname].envelopes):
+                        merged.add(cname)
         self.ces[name] = CompositeEnvelope(*args)
+        group = {name} | merged
+        for g in list(self.ce_groups):
+            if g & group:
+                group |= g
+                self.ce_groups.remove(g)
+        self.ce_groups.append(group)
         return name
 
     def partner(self, name: str):
